@@ -623,16 +623,17 @@ PROPS = {
     "C04": pool_prop("HdModel.Props.C04", ["C04/"], ["Hd.Pool.C04_reuse_issue", "Hd.Pool.C04_reuse_poll", "Hd.Pool.C04_share_stays_pooled",
         "Hd.Pool.C04_dedup_issue", "Hd.Pool.C04_dedup_poll", "Hd.Pool.C04_marker_owner", "Hd.Pool.issue_found", "Hd.Pool.issue_missing",
         "Hd.Pool.C04_one_attempt_per_origin", "Hd.Pool.C04_attempt_ids_distinct", "Hd.Pool.step_minv", "Hd.Pool.run_minv",
-        "Hd.Pool.C04_released_connection_is_kept", "Hd.Pool.C04_cancel_returns_unused", "Hd.Pool.C04_only_polls_dial", "Hd.Pool.dropCheckout_dials"], leaf=True, cfgp=True),
+        "Hd.Pool.C04_released_connection_is_kept", "Hd.Pool.C04_cancel_returns_unused", "Hd.Pool.C04_only_polls_dial", "Hd.Pool.dropCheckout_dials", "Hd.Builder.pool_survives"], leaf=True, cfgp=True),
     "C05": pool_prop("HdModel.Props.C05", ["C05/"], ["Hd.Pool.C05_pop_spec", "Hd.Pool.C05_expired_head", "Hd.Pool.C05_no_timeout_never_expires",
-        "Hd.Pool.C05_pop_suffix", "Hd.Pool.C05_issue_fresh"], timed=True, leaf=True, cfgp=True),
+        "Hd.Pool.C05_pop_suffix", "Hd.Pool.C05_issue_fresh", "Hd.Builder.pool_survives"], timed=True, leaf=True, cfgp=True),
     "C06": pool_prop("HdModel.Props.C06", ["C06/"], ["Hd.Pool.C06_request_gets_own_origin", "Hd.Pool.C06_held_same_origin",
         "Hd.Pool.C06_idle_same_origin", "Hd.Pool.step_originInv", "Hd.Pool.run_originInv", "Hd.Pool.step_coSame",
         "Hd.Pool.C06_tokenOf", "Hd.Pool.C06_tokens_distinct", "Hd.Pool.C06_new_conn_origin", "Hd.Pool.keysOk_init"], mt=True),
     "C14": pool_prop("HdModel.Props.C14", ["C14/"], ["Hd.Pool.C14_preempt", "Hd.Pool.pushLoop_first_live", "Hd.Pool.C14_keeps_listening",
         "Hd.Pool.C14_continue", "Hd.Pool.C14_discard", "Hd.Pool.C14_listener_is_queued", "Hd.Pool.C14_release_serves_a_listener",
         "Hd.Pool.pushLoop_delivers", "Hd.Pool.step_queued", "Hd.Pool.run_queued"]),
-    "C15": pool_prop("HdModel.Props.C15", ["C15/"], ["Hd.Pool.C15_idle_bound", "Hd.Pool.step_idleBound", "Hd.Pool.push_idleBound", "Hd.Pool.C15_per_origin", "Hd.Pool.compact_eq"], timed=True, mt=True, cfgp=True),
+    "C15": pool_prop("HdModel.Props.C15", ["C15/"], ["Hd.Pool.C15_idle_bound", "Hd.Pool.step_idleBound", "Hd.Pool.push_idleBound", "Hd.Pool.C15_per_origin", "Hd.Pool.compact_eq",
+        "Hd.Builder.C15_with_pool_in_effect", "Hd.Builder.pool_survives"], timed=True, mt=True, cfgp=True),
     "C18": {
         "props_module": "HdModel.Props.C18",
         "class_prefix": ["C18/", "C08/bytes-altered"],
@@ -699,7 +700,7 @@ PROPS = {
         "theorems": ["Hd.Tls.C12_scheme_test", "Hd.Tls.C12_never_in_clear", "Hd.Tls.C12_stream_means_verified",
                      "Hd.Tls.C12_failure_is_error", "Hd.Tls.C12_success", "Hd.Tls.C12_others_not_wrapped", "Hd.Tls.C12_no_panic",
                      "Hd.Tls.C12_run_spec", "Hd.TlsPool.C12_pooled_secure_on_tls", "Hd.TlsPool.C12_pooled_needs_scheme_in_key",
-                     "Hd.TlsPool.send_conn", "Hd.TlsPool.schemeUsesTls_congr"],
+                     "Hd.TlsPool.send_conn", "Hd.TlsPool.schemeUsesTls_congr", "Hd.Builder.C12_with_tls_in_effect", "Hd.Builder.tls_survives"],
         "streams": [
             {"name": "tls", "quick": 4000, "thorough": 200000, "head": 10, "unit": 1, "batch": 20000,
              "exhaustive": "tls-exhaustive", "exhaustive_always": True, "nontrivial": tls_nontrivial, "distribution": tls_dist},
@@ -797,7 +798,7 @@ PROPS = {
         "props_module": "HdModel.Props.C19",
         "class_prefix": ["C19/", "C03/"],
         "theorems": ["Hd.Timeout.C19_result", "Hd.Timeout.C19_no_early_timeout", "Hd.Timeout.C19_inner_first",
-                     "Hd.Timeout.C19_inner_unchanged"],
+                     "Hd.Timeout.C19_inner_unchanged", "Hd.Builder.C19_with_timeout_in_effect", "Hd.Builder.timeout_survives"],
         "streams": [
             {"name": "to", "quick": 6000, "thorough": 200000, "sep": None, "head": 5, "unit": 1,
              "nontrivial": to_nontrivial, "distribution": to_dist},
